@@ -804,6 +804,12 @@ func xgen(g *Gen) {
 	g.Emit("tree g2 s:a o:'c'")
 	g.Emit("tree g0012 s:x s:+ o:'c' o:'d'")
 	g.Count("char-uint64-statement-start")
+	// 8b. nil, written (), starting a juxtaposed statement (proposed fix C06-02)
+	g.Emit("tree g1120 s:a s:= n:1 ( )")
+	g.Emit("tree g10 s:a ( )")
+	g.Emit("ltree g1120 s:a s:= n:1 ( )")
+	g.Emit("tree g1010 s:a s:= ( ) ; s:a")
+	g.Count("nil-statement-start")
 	xgenSpacing(g)
 	g.Emit("tree g10 s:a s:- n:1")
 	g.Emit("tree g1110 s:a s:* s:b s:- n:2")
